@@ -85,6 +85,10 @@ func Convert(value any, typ reflect.Type) (any, error) { //nolint: gocyclo
 	if value == nil && typ.Kind() == reflect.Interface {
 		return nil, nil
 	}
+	// a pointer (*time.Time, *int) converts as what it points to
+	if rv.Kind() == reflect.Ptr && !rv.IsNil() && !rv.Type().AssignableTo(typ) && typ.Kind() != reflect.Interface {
+		return Convert(rv.Elem().Interface(), typ)
+	}
 	// A slice of interfaces may hold Drops; the element-wise conversion below resolves them.
 	toInterfaceSlice := typ.Kind() == reflect.Slice && typ.Elem().Kind() == reflect.Interface &&
 		(rv.Kind() == reflect.Slice || rv.Kind() == reflect.Array)
